@@ -241,3 +241,50 @@ func sweepInert(c *Ctx, with, without *sweepRun) {
 		}
 	}
 }
+
+// akeAfterRun: a damaged copy of an old key-exchange message arrives long after the exchange; then the peer asks
+// for a refresh. The rejected message must not change how the query is handled.
+func akeAfterRun(pol int, seed uint64, src byte, m Mut, withMut bool) *sweepRun {
+	pols := []int{pol, pol}
+	s := newSys(pols, seed)
+	r := &sweepRun{s: s, pols: pols, mutIdx: -1, label: fmt.Sprintf("after-exchange,copy-of=%#x,%s", src, m.Kind)}
+	if !s.Handshake(2, 1) {
+		return r
+	}
+	s.tick(130)
+	if withMut {
+		for owner := 1; owner <= 2; owner++ {
+			for i := len(s.ps[owner].outs) - 1; i >= 0; i-- {
+				if w := parseWire(s.ps[owner].outs[i]); w.kind == 3 && w.typ == src {
+					r.deliverMut(owner, i, 3-owner, m)
+					i = -1
+				}
+			}
+		}
+	}
+	s.tick(5)
+	s.Query(1, 2) // (one side only: with both, who wins the collision depends on random values, and the standard
+	// library's DSA signing consumes randomness at random, so twin runs would not be comparable)
+	s.Pump(1, 2, 30)
+	for _, d := range [][2]int{{1, 2}, {2, 1}} {
+		s.Send(d[0], []byte(fmt.Sprintf("after-%d", d[0])))
+		s.Pump(1, 2, 6)
+	}
+	return r
+}
+
+func akeAfterSweep(c *Ctx, each func(with, without *sweepRun)) {
+	for _, typ := range akeTypes {
+		for _, m := range []Mut{MTruncate(), MAkeDamage(0), MAkeDamage(2)} {
+			pol := []int{polV2, polV3}[int(typ)%2]
+			seed := c.R.U64()
+			with := akeAfterRun(pol, seed, typ, m, true)
+			if with.mutIdx < 0 {
+				continue
+			}
+			without := akeAfterRun(pol, seed, typ, m, false)
+			c.Count("ake-after:" + m.Kind)
+			each(with, without)
+		}
+	}
+}
